@@ -346,7 +346,7 @@ func main() {
 	}
 	nProg, nMut, nHist, batchSize := 70, 24, 6, 8
 	if r.Thorough {
-		nProg, nMut, nHist, batchSize = 1400, 500, 10, 12
+		nProg, nMut, nHist, batchSize = 900, 300, 10, 12
 	}
 	if v := os.Getenv("C01_NPROG"); v != "" { // debugging aid only
 		fmt.Sscan(v, &nProg)
